@@ -153,6 +153,27 @@ def setter_lines():
     return out
 
 
+def lookalike_lines():
+    """element bodies and SSIDs whose octets look like the element a setter searches for or is about to write: a setter
+    must find elements by walking the list, not by matching octets"""
+    out = []
+    base = "gen %s a1=010203040506 a2=0a0b0c0d0e0f a3=101112131415 %s clk=1:0 ops=%s"
+    for kind in ("beacon", "probe_resp", "assoc_resp", "reassoc_resp"):
+        args = "ssid=6f6c64 ch=6" if kind in ("beacon", "probe_resp") else "ch=6"
+        for ch in (6, 9, 11):
+            ds = "0301%02x" % ch
+            for ops in ("a:221:001337" + ds + ",c:%d" % ch, "a:221:" + ds + ",c:%d" % ch, "a:45:" + ds + ds + ",c:%d" % ch, "a:3:05,a:3:%02x,c:%d" % (ch, ch), "a:3:%02x,a:221:%s,c:%d" % (ch, ds, ch),
+                        "c:%d,a:221:0000%s,c:%d" % (ch, ds, ch), "a:221:" + ds + ",r:3,c:%d" % ch):
+                out.append(base % (kind, args, ops))
+        if kind in ("beacon", "probe_resp"):
+            for ops in ("a:221:0013370001" + "4e" + ",s:4e", "a:221:00014e,s:4e", "a:0:4e,s:4e", "a:221:0000,s:-", "s:4e,a:221:00014e,s:4e", "a:221:00014e,r:0,s:4e"):
+                out.append(base % (kind, args, ops))
+            for ssid, ch in (("6c6162030106", 6), ("030106", 6), ("61000301", 1), ("0301060301", 6)):
+                for ops in ("-", "c:%d" % ch, "s:" + ssid, "c:%d,s:%s" % (ch, ssid)):
+                    out.append("gen %s a1=010203040506 a2=0a0b0c0d0e0f a3=101112131415 ssid=%s ch=%d clk=1:0%s" % (kind, ssid, ch, "" if ops == "-" else " ops=" + ops))
+    return out
+
+
 def api_lines(rnd, samples3=120, bufs=False):
     """systematic API exploration: for every generator kind, every sequence of up to two edit calls over a small
     alphabet of calls the kind offers (plus sampled sequences of three), on two argument sets"""
@@ -206,6 +227,7 @@ def check(ctx):
     rnd = random.Random(ctx.seed)
     fw.run_suite(ctx, exe, "S-gen/boundary", boundary_lines(), "frame generation")
     fw.run_suite(ctx, exe, "S-gen/argument-grid", grid_lines(), "frame generation over the cross product of small argument values")
+    fw.run_suite(ctx, exe, "S-gen/look-alike-contents", lookalike_lines(), "frame generation with bodies that look like the element a setter searches for")
     fw.run_suite(ctx, exe, "S-gen/setter-sequences", setter_lines(), "frame generation after setter / remove sequences")
     fw.run_suite(ctx, exe, "S-gen/api-sequences", api_lines(random.Random(ctx.seed + 5), 120 if ctx.tier == "quick" else 2000), "frame generation after a short call sequence")
     n = 250 if ctx.tier == "quick" else 4000
